@@ -89,6 +89,12 @@ def handle (toks : List String) : String :=
       let ax : Axis := if axis == "none" then none else some (axis == "0")
       let s := absmaxScale F (qmax.toNat! : Rat) x ax
       s!"{showShape s.shape} {showFT F s}"
+  | ["absmaxw", f, axis, shape, xb] =>
+      let F := fmtOfName f
+      let x := parseFT F shape xb
+      let ax : Axis := if axis == "none" then none else some (axis == "0")
+      let s := absmaxScale F 127 x ax
+      s!"{showShape s.shape} {showFT F s}"
   | ["spec02", f, bits, axis, gs, shape, xb, pshape, sb, gshape, cb, zb, yb] =>
       let F := fmtOfName f
       let g : Option Nat := if gs == "none" then none else some gs.toNat!
